@@ -1057,7 +1057,8 @@ class StructFamily(Family):
 
     def coq_check(self, case, obs):
         if obs.get("construct") != "ok":
-            return None
+            # refused schemas (exhaust-buffer misuse, "0p", ...): the model's constructor must agree
+            return coq_construct(case["schema"], obs.get("construct"))
         return coq_rows(case["schema"], case["values"], obs["rows"])
 
     def nontrivial(self, case, obs):
@@ -1468,7 +1469,8 @@ class StructInvalidSchema(Family):
         return {"construct": r if st == "ok" else ("HANG" if st == "hang" else r)}
 
     def coq_check(self, case, obs):
-        if case["rule"] not in ("binaryformat-missing", "length-negative", "optional-without-default"):
+        if case["rule"] not in ("binaryformat-missing", "length-negative", "optional-without-default",
+                                "null-nonpad-format"):
             return None            # the other rule violations are not expressible in the model's schema type
         return coq_construct(case["schema"], obs["construct"])
 
